@@ -15,7 +15,7 @@ from vlib.harness import Discard, Violation  # noqa
 def main():
     pid, sub, n = sys.argv[1], sys.argv[2], int(sys.argv[3])
     seed = int(sys.argv[4]) if len(sys.argv) > 4 else 1
-    kind = sys.argv[5] if len(sys.argv) > 5 else "py"
+    kind = sys.argv[5] if len(sys.argv) > 5 and sys.argv[5] in ("py", "cy") else "py"
     import importlib
 
     mod = importlib.import_module("vlib.props.%s" % pid.lower())
@@ -50,6 +50,10 @@ def main():
         if k in small:
             print("        ", small[k][1][:300])
             print("        ", harness.canon(small[k][0])[:600])
+    import os, re
+    os.makedirs("/tmp/bucket", exist_ok=True)
+    for k, (spec, msg) in small.items():
+        json.dump({"spec": spec, "message": msg, "sub": sub}, open("/tmp/bucket/%s.json" % re.sub(r"[^A-Za-z0-9_.-]+", "_", k)[:80], "w"))
     if "-l" in sys.argv:
         for k, c in sorted(labels.items()):
             print("   label %-40s %d" % (k, c))
